@@ -77,6 +77,10 @@ func (o *av1OBU) dropped() bool { return o.typ == 2 || o.typ == 8 } // temporal 
 // OBUs or omitted on the last.
 func genAV1TU(t *core.Tape, mtu int) ([]av1OBU, []byte) {
 	n := 1 + t.Intn(8)
+	many := t.Chance(1, 40) // dozens of small OBUs in one unit (metadata, tile groups): counts beyond the 2-bit W field
+	if many {
+		n = 9 + t.Intn(40)
+	}
 	obus := make([]av1OBU, 0, n)
 	omitLastSize := t.Chance(1, 3)
 	curT, curS := byte(t.Intn(8)), byte(t.Intn(4))
@@ -149,6 +153,9 @@ func genAV1TU(t *core.Tape, mtu int) ([]av1OBU, []byte) {
 			}
 		case 6:
 			size = t.Intn(2*mtu + 1)
+		}
+		if many && size > 40 {
+			size = t.Intn(24)
 		}
 		if size < 0 {
 			size = 0
